@@ -1671,15 +1671,17 @@ class Wtp:
                             template_page = self.get_page_resolve_redirect(
                                 name, None
                             )
-                            if template_page is not None:
-                                template_page.body = self._template_to_body(
-                                    name, template_page.body
-                                )
                         if (
                             template_page is not None
                             and template_page.body is not None
                         ):
                             body = template_page.body
+                            if template_page.namespace_id != template_ns["id"]:
+                                # Only pages of the Template namespace are
+                                # stored reduced to their includable part.
+                                # (A local copy: the page object is shared
+                                # with every later lookup.)
+                                body = self._template_to_body(name, body)
                             # XXX optimize by pre-encoding bodies during
                             # preprocessing
                             # (Each template is typically used many times)
